@@ -44,6 +44,11 @@ let parse (l : String.t) : op option =
   | ["spl"; b; off; len] -> Some (OSPtrLen (nat b, n_of_string off, n_of_string len))
   | ["sview"; a] -> Some (OSView (vexp a))
   | ["sfill"; n; c] -> Some (OSFill (n_of_string n, n_of_string c))
+  (* the allocator-first compatibility overloads delegate to the constructors above; basic_string(size) fills with 0 *)
+  | ["scsa"; b; off] -> Some (OSCstr (nat b, n_of_string off))
+  | ["spla"; b; off; len] -> Some (OSPtrLen (nat b, n_of_string off, n_of_string len))
+  | ["sviewa"; a] -> Some (OSView (vexp a))
+  | ["sfill0"; n] -> Some (OSFill (n_of_string n, n_of_int 0))
   | ["scopy"; k] -> Some (OSCopy (nat k))
   | ["sassign"; d; s] -> Some (OSAssign (nat d, nat s))
   | ["sresize"; k; n] -> Some (OSResize (nat k, n_of_string n, junk ()))
